@@ -90,6 +90,8 @@ VALID = dict(
                 '<{p}triangles count="1" material="m"><{p}input semantic="VERTEX" source="#{id}-v" offset="0"/><{p}p>{perm}</{p}p></{p}triangles>'
                 '<{p}polylist count="2" material="m"><{p}input semantic="VERTEX" source="#{id}-v" offset="0"/><{p}vcount>3 3</{p}vcount>'
                 '<{p}p>{perm} 0 1 2</{p}p></{p}polylist>'
+                # the same index text read as two triangles and as three lines (byte-identical <p> in different documents is common, too)
+                '{extra2}'
                 '</{p}mesh></{p}geometry>'),
     lights='<{p}light id="{id}"><{p}technique_common><{p}point><{p}color>1 0.5 0.25</{p}color></{p}point></{p}technique_common></{p}light>',
     cameras=('<{p}camera id="{id}"><{p}optics><{p}technique_common><{p}perspective><{p}xfov>45</{p}xfov><{p}znear>1</{p}znear>'
@@ -142,7 +144,14 @@ def render(spec):
             if l != lib:
                 continue
             tmpl = VALID[l] if fault is None else FAULT[(l, fault)]
-            out.append(tmpl.format(p='' if ens == ns else 'f:', id=id_, perm=PERMS[sum(id_.encode()) % 6]))
+            pf = '' if ens == ns else 'f:'
+            # one index text (the same in many documents: it only depends on the order below) read as two triangles and as three lines, in either order
+            two = [x.format(p=pf, id=id_) for x in
+                   ('<{p}triangles count="2" material="m"><{p}input semantic="VERTEX" source="#{id}-v" offset="0"/><{p}p>0 1 2 2 1 0</{p}p></{p}triangles>',
+                    '<{p}lines count="3" material="m"><{p}input semantic="VERTEX" source="#{id}-v" offset="0"/><{p}p>0 1 2 2 1 0</{p}p></{p}lines>')]
+            if sum(id_.encode()) % 2:
+                two.reverse()
+            out.append(tmpl.format(p=pf, id=id_, perm=PERMS[sum(id_.encode()) % 6], extra2=''.join(two)))
         out.append('</%s>' % LIBTAG[lib][0])
     out.append('<scene/></COLLADA>')
     data = '\n'.join(out).encode()
@@ -1220,6 +1229,51 @@ def nested_write_check(seed):
     return None
 
 
+def disk_documents_check(seed):
+    """documents on disk that look alike from where the process stands: the same relative file name in two directories, the same texture name with
+    other bytes, a texture rewritten between two loads. Every document gets ITS files, as it would alone. Returns None or (signature, text)"""
+    import collada
+    import shutil
+    import tempfile
+    rng = random.Random('c20disk/%s' % seed)
+    top = tempfile.mkdtemp(prefix='c20disk_')
+    cwd = os.getcwd()
+    doc = ('<?xml version="1.0"?><COLLADA xmlns="%s" version="1.4.1"><asset><up_axis>Y_UP</up_axis></asset><library_images>'
+           '<image id="i"><init_from>%s</init_from></image></library_images></COLLADA>')
+    try:
+        tex = rng.choice(['tex.png', './tex.png', 'maps/tex.png'])
+        want = {}
+        for name in ('a', 'b'):
+            d = os.path.join(top, name)
+            os.makedirs(os.path.join(d, 'maps'))
+            with open(os.path.join(d, 'model.dae'), 'w') as f:
+                f.write(doc % (NS14, tex))
+            want[name] = ('texture of project %s %d' % (name, rng.randrange(10 ** 6))).encode()
+            with open(os.path.join(d, os.path.normpath(tex)), 'wb') as f:
+                f.write(want[name])
+        order = rng.choice([['a', 'b'], ['b', 'a'], ['a', 'b', 'a'], ['a', 'a', 'b']])
+        how = rng.choice(['relative', 'relative', 'absolute'])
+        for step, name in enumerate(order):
+            d = os.path.join(top, name)
+            if rng.random() < 0.3:
+                want[name] = ('rewritten %d' % rng.randrange(10 ** 6)).encode()
+                with open(os.path.join(d, os.path.normpath(tex)), 'wb') as f:
+                    f.write(want[name])
+            if how == 'relative':
+                os.chdir(d)
+                c = collada.Collada('model.dae')
+            else:
+                c = collada.Collada(os.path.join(d, 'model.dae'))
+            got = c.images[0].data
+            if got != want[name]:
+                return ('disk:other-documents-file', 'step %d: the document %s/model.dae (opened %s) gets %r as the data of %s, its own file holds %r; '
+                        'order of documents %s' % (step, name, how, bytes(got)[:40] if got else got, tex, want[name][:40], order))
+    finally:
+        os.chdir(cwd)
+        shutil.rmtree(top, ignore_errors=True)
+    return None
+
+
 # ----------------------------------------------------------------------------- the check
 
 def run(ctx):
@@ -1422,6 +1476,18 @@ def _run(ctx, z):
             reported.add('iso:' + nb[0])
             ctx.violation('iso:' + nb[0], nb[1], dict(kind='nested', seed=nseed))
 
+    # --- documents on disk that look alike
+    for i in range(ctx.n(60, 1200)):
+        dseed = ctx.rng.randrange(10 ** 9)
+        try:
+            db = disk_documents_check(dseed)
+        except Exception as e:
+            db = ('disk:check-raised:' + type(e).__name__, 'disk documents check raised %s: %s' % (type(e).__name__, e))
+        ctx.count('disk-documents')
+        if db and 'iso:' + db[0] not in reported:
+            reported.add('iso:' + db[0])
+            ctx.violation('iso:' + db[0], db[1], dict(kind='disk', seed=dseed))
+
     # --- (d) threads on distinct documents
     if ctx.thorough:
         thread_soak(ctx, z, reported, 60.0 * min(1.0, float(os.environ.get('VERIF_SCALE', '1'))))
@@ -1602,6 +1668,11 @@ def replay(ctx, rep):
             if d['field'] == 'snap':
                 print('  ' + text_diff(*d['full']))
             return True
+        if kind == 'disk':
+            db = disk_documents_check(rep['seed'])
+            if db:
+                print('  ' + db[1])
+            return bool(db)
         if kind == 'nested':
             nb = nested_write_check(rep['seed'])
             if nb and nb != 'skip':
